@@ -177,7 +177,7 @@ func runC04(p *Prog, r *Report) {
 			for _, e := range s {
 				a, b := false, false
 				for _, g := range e.Guard {
-					if strings.Contains(g, ".lastPipe == ") {
+					if atomSides(g, "==", func(x, y string) bool { return strings.HasSuffix(x, ".lastPipe") && y != "nil" }) {
 						a = true
 					}
 					if strings.HasSuffix(g, ".reqMsg != nil") {
